@@ -1,7 +1,7 @@
 """C14 -- a server connection ends cleanly or with one error report; the server lives on."""
 from runner import Prop
 from vlib import Case
-import mb, cligen, vlib
+import mb, cligen, p_c18, vlib
 from p_c07 import gen_pipeline, svc_tok, expected_trace
 
 
@@ -121,6 +121,8 @@ class PROP(Prop):
                 good = cligen.frame(proto, 1, 1, b"\x11").hex()
                 bad = (b"\x00\x01\x00\x01\x00\x02\x01\x11" if proto == "tcp" else bytes([0x00, 0x80] * 13)).hex()
                 cs.append(Case("ACCEPT %s %s %s %s" % (proto, good, bad, ",".join(evs + [end])), {"k": "accept", "proto": proto, "evs": evs, "end": end}))
+        # other connections are unaffected when a later connection's setup fails (serve stops with that error) or is rejected
+        cs += p_c18.survive_cases(rng, tier)
         return cs
 
     def project(self, case, s):
@@ -133,6 +135,8 @@ class PROP(Prop):
         r = c.impl or ""
         if "PANIC" in r or "HUNG" in r:
             return "panic/hang: %s" % r[:80]
+        if m["k"] == "survive":
+            return p_c18.survive_oracle(c)
         if m["k"] == "accept":
             # served connections: every 's' and 'b' (misbehaving) gets a task; 'r' rejected; then end
             served = sum(1 for e in m["evs"] if e in ("s", "b", "k"))
